@@ -524,7 +524,7 @@ def run_plan_forked(mod, plan, cap=None):
 
 
 def _violates(mod, plan, cls):
-    res = run_plan_forked(mod, plan, 600 if plan.get('_line_budget') else None)
+    res = run_plan_forked(mod, plan, 600 if plan.get('_line_budget') else getattr(mod, 'WALL_CAP_S', None))
     for v in res.get('violations', ()):
         if v['class'] == cls:
             return v
